@@ -350,6 +350,9 @@ func TestC08(t *testing.T) {
 	r.Assume("PV move is a pseudo-legal move of the target position (it comes from the hash table / IID for that position); evasion flag = side to move is in check, as every caller passes it")
 	r.Assume("a reused generator is reset before the same position is visited again and whenever a PV move is or was set (discipline of search); position switches without reset only without PV (perft)")
 	r.Assume("batch calls are made between, not inside, phased iterations")
+	if hx.FuzzCrasher(r, "FuzzC08", genFuzzC08, propC08) {
+		return
+	}
 
 	hx.Sub(r, "machine", r.N(8000, 40000), func(t *rapid.T) c08Case { return genC08(t, 8) }, propC08)
 
